@@ -808,7 +808,9 @@ impl<T: Elem + Copy + PartialEq + 'static> VecApi<T> for Mm<T> {
     fn resize(&mut self, n: usize, x: T) -> R<T> { unit(self.m().resize(n, x)) }
     fn clear(&mut self) -> R<T> { unit(self.m().clear()) }
     fn shrink(&mut self) -> R<T> { unit(self.m().shrink_to_fit()) }
-    fn extend(&mut self, xs: Vec<T>) -> R<T> { if xs.len() % 2 == 0 { unit(self.m().extend(xs)) } else { unit(self.m().push_bulk_simd(&xs)) } }
+    fn extend(&mut self, xs: Vec<T>) -> R<T> {
+        // extend with an exact size hint, extend with none (no reservation up front), push_bulk_simd
+        match xs.len() % 4 { 0 => unit(self.m().extend(xs)), 2 => unit(self.m().extend(xs.into_iter().filter(|_| true))), _ => unit(self.m().push_bulk_simd(&xs)) } }
     fn reserve(&mut self, n: usize) -> R<T> { unit(self.m().reserve(n)) }
     fn truncate(&mut self, n: usize) -> R<T> { unit(self.m().truncate(n)) }
     fn fill_range(&mut self, a: usize, b: usize, x: T) -> R<T> { unit(self.m().fill_range_simd(a..b, x)) }
@@ -1137,6 +1139,12 @@ fn str_case_on(cx: &mut Ctx, kind: u64, strs: &[String], mode: u64, cj: Value, k
     let r: Result<Option<(Option<&'static str>, String)>, String> = guarded(|| -> Option<(Option<&'static str>, String)> {
         match kind {
             0 => {
+                // the tuning knobs SortableStrVec reads from the environment when it is built: a cache block of 1, 2, 3 or 7
+                // strings makes binary_search take its block search from 3 strings on (default: above 512), no prefetch
+                let knobs = mode % 3 == 2;
+                if knobs { std::env::set_var("SORTABLE_CACHE_BLOCK", ["1", "2", "3", "7"][(mode / 3 % 4) as usize]); std::env::set_var("SORTABLE_PREFETCH", "0"); }
+                struct Unset(bool); impl Drop for Unset { fn drop(&mut self) { if self.0 { std::env::remove_var("SORTABLE_CACHE_BLOCK"); std::env::remove_var("SORTABLE_PREFETCH"); } } }
+                let _unset = Unset(knobs);
                 // constructor: new / with_capacity / from_iter (bulk) / Default
                 let ctor = (mode / 7) % 4;
                 let bulk = ctor == 2 && strs.iter().all(|s| s.len() < (1 << 20));
@@ -1363,6 +1371,10 @@ fn strvec_history(cx: &mut Ctx, ops: &[Value], coq: Coq) {
     cx.sum.eval(cell, &format!("strvec {:?}", ops), ops.len() >= 3);
     let cj = json!({"cell": "strvec", "ops": ops});
     #[derive(PartialEq, Clone, Copy)] enum Mode { Unsorted, Exact, ByLen }
+    // every third history runs with the environment knobs of SortableStrVec set: cache block of 1 / 2 / 3 / 7 strings
+    // (binary_search then takes its block search from 3 strings on), no prefetch
+    let knobs = ops.len() % 3 == 0;
+    if knobs { std::env::set_var("SORTABLE_CACHE_BLOCK", ["1", "2", "3", "7"][ops.len() / 3 % 4]); std::env::set_var("SORTABLE_PREFETCH", "0"); }
     let r = guarded(|| -> Result<(Vec<String>, Vec<String>, bool), String> {
         let mut v = SortableStrVec::new();
         let mut want: Vec<String> = vec![];
@@ -1433,6 +1445,7 @@ fn strvec_history(cx: &mut Ctx, ops: &[Value], coq: Coq) {
         }
         Ok((coq_ops, expect, coq_ok))
     });
+    if knobs { std::env::remove_var("SORTABLE_CACHE_BLOCK"); std::env::remove_var("SORTABLE_PREFETCH"); }
     match r {
         Err(p) => cx.sum.fail(cell, None, cj, &format!("panicked: {}", p)),
         Ok(Err(d)) => cx.sum.fail(cell, None, cj, &d),
@@ -1597,7 +1610,8 @@ fn gen_vec_ops(r: &mut Rng, allowed: &[u64], big: bool) -> Vec<Vec<u64>> {
     for _ in 0..n {
         let code = *r.pick(allowed);
         let idx = |r: &mut Rng, len: u64| { let rb = r.below(len + 1); *r.pick(&[0, len, len.saturating_sub(1), len + 1, rb, len / 2]) };
-        let amount = |r: &mut Rng| if big { *r.pick(&[0u64, 1, 7, 8, 9, 63, 64, 65, 70, 130]) } else { *r.pick(&[0u64, 1, 2, 3, 5, 9, 17]) };
+        // amounts around the 64-byte switch of every element size in use: 64 / 8 / 4 / 3 (24-byte) / 32 (2-byte) elements
+        let amount = |r: &mut Rng| if big { *r.pick(&[0u64, 1, 2, 3, 4, 5, 7, 8, 9, 31, 32, 33, 63, 64, 65, 70, 130]) } else { *r.pick(&[0u64, 1, 2, 3, 5, 9, 17]) };
         let o = match code {
             0 => { len += 1; vec![0] }
             1 => { len = len.saturating_sub(1); vec![1] }
@@ -1679,7 +1693,7 @@ pub fn run(args: &Args) {
     // MmapVec::with_capacity_simd creates its file in std::env::temp_dir()
     if std::env::var_os("TMPDIR").is_none() { std::env::set_var("TMPDIR", mm_dir()); }
     let mut cx = Ctx {
-        sum: Summary::new("C10", "operation histories (4..60 ops) on every container the property names, element type = drop-counting handle (per-id live-instance count compared with the shadow container after every operation and after Drop) or u8/u64 for the Copy/SIMD paths; initial capacities 0,1,2,3,4,7,8,9,16; ring histories start by rotating head to a chosen offset, bulk sizes are chosen to exactly fill / overshoot by one / straddle the wrap point, growth while wrapped is counted; vector indices at 0, len-1, len, len+1; string sets with duplicates, shared prefixes/suffixes, empty strings, NUL bytes, multi-byte UTF-8, lengths at the fixed limit; after every operation len/front/back/as_slice/get (incl. two indices past the end) are compared with VecDeque/Vec; non-trivial = history of >= 3 operations or >= 2 strings"),
+        sum: Summary::new("C10", "operation histories (4..60 ops) on every container the property names, element type = drop-counting handle (per-id live-instance count compared with the shadow container after every operation and after Drop) or u8/u64 for the Copy/SIMD paths; initial capacities 0,1,2,3,4,7,8,9,16; ring histories start by rotating head to a chosen offset, bulk sizes are chosen to exactly fill / overshoot by one / straddle the wrap point, growth while wrapped is counted; vector indices at 0, len-1, len, len+1; string sets with duplicates, shared prefixes/suffixes, empty strings, NUL bytes, multi-byte UTF-8, lengths at the fixed limit; after every operation len/front/back/as_slice/get (incl. two indices past the end) are compared with VecDeque/Vec; non-trivial = history of >= 3 operations or >= 2 strings; breadth families (c10_breadth.rs): the same histories widened by the secondary entry points (aliases, ==, Debug, Index/IndexMut/get_mut/as_mut_slice/iter_mut, iterators, with_size, unchecked push, other constructors and presets as \"ctor\"), element types i16 / u128 / 24-byte struct / zero-sized (the latter in a child process), deterministic scripts around 512, 4096, 8182, 2^16, 2^20 elements (\"big\": sizes as numbers in the case), several BumpVecs in one allocator, MmapVec presets and read-only re-opening, string sets of 513..70000 strings by (kind, n, seed) and strings of 2^24 bytes by (kind, len)"),
         shards: CoqShards::new(HEADER, 150),
         budgets: Default::default(),
     };
